@@ -371,13 +371,17 @@ def alnTrimStopCodons (getItem : List Char → Char) (rows : List (List Char)) (
   | .ok false => .ok rows
   | .ok true => .ok (rows.map (alnTrimRow getItem))
 
-/-- old `_SequenceCollectionBase.get_translation` (SequenceCollection): pre-pass `trim_stop_codons(gc, strict)` when
-`trim_stop and not include_stop`, then `seq.get_translation(gc, incomplete_ok=True, include_stop, trim_stop)` per row -/
+/-- old `_SequenceCollectionBase.get_translation` (SequenceCollection): pre-pass `seqs = trim_stop_codons(gc, strict)` when
+`trim_stop and not include_stop`, then `seq.get_translation(gc, incomplete_ok=True, include_stop, trim_stop and seqs is self)`
+per row (since 8fbe3611a; `trim_stop_codons` returns `self` exactly when `has_terminal_stop` answers False) -/
 def oldCollGetTranslation (seq : List Char) (rows : List (List Char)) (io is_ ts : Bool) :
     Except Err (List (List Char)) :=
-  match (if ts && !is_ then collTrimStopCodons (oldGetItem seq) rows (!io) else .ok rows) with
-  | .error e => .error e
-  | .ok rows1 => rows1.mapM fun r => oldSeqGetTranslation seq r true is_ ts
+  if ts && !is_ then
+    match collHasTerminalStop (oldGetItem seq) rows (!io), collTrimStopCodons (oldGetItem seq) rows (!io) with
+    | .error e, _ => .error e
+    | _, .error e => .error e
+    | .ok h, .ok rows1 => rows1.mapM fun r => oldSeqGetTranslation seq r true is_ (ts && !h)
+  else rows.mapM fun r => oldSeqGetTranslation seq r true is_ ts
 
 /-- new `SequenceCollection.get_translation`: `seq.get_translation(gc, incomplete_ok, include_stop, trim_stop)` per row -/
 def newCollGetTranslation (mt : MT) (seq : List Char) (rows : List (List Char)) (io is_ ts : Bool) :
